@@ -214,6 +214,26 @@ def main() -> None:
     if variant.startswith("renamefail:"):
         return renamefail_life(root, variant.split(":", 1)[1], ds, tables)
 
+    if variant == "bigmeta":
+        # every metadata file of this table is larger than 4 MiB (a huge table property): whatever way the library
+        # writes large files - in chunks, with intermediate flushes - the whole content must be flushed at the flip
+        import copy
+        mark("create")
+        t = ds.create_table(root, schema=tables.std_schema())
+        mark("append")
+        t.append_records(tables.rows([1, 2]))
+        mark("set_huge_property")
+        mm = t.metadata_manager
+        base = mm.refresh()
+        new = copy.deepcopy(base)
+        new.properties["comment"] = "x" * (4 * 1024 * 1024 + 300_017)
+        mm.commit(base, new)
+        mark("append_big_1")
+        t.append_records(tables.rows([3]))
+        mark("append_big_2")
+        ds.load_table(root).append_records(tables.rows([4]))
+        mark("end")
+        os._exit(0)
     mark("create")
     t = ds.create_table(root, schema=tables.std_schema())
     if variant == "b":
